@@ -34,32 +34,33 @@ _FILES = ("files written by the real writer from the current tree: EMPTY (empty 
 
 PROPS["C18"] = dict(
   jobs=[
-    dict(name="file-valid", entries=["harness_valid"], shards=[{0: FM_EMPTY}, {0: FM_TET}, {0: FM_TETP}],
+    dict(name="file-valid", entries=["harness_valid"], shards={"quick": [{0: FM_EMPTY}, {0: FM_TET}], "thorough": [{0: FM_EMPTY}, {0: FM_TET}, {0: FM_TETP}]},
          bounds=_FILES + "the unmodified files read Ok (sanity: the reader does not reject everything)", **_C18F),
     dict(name="file-trunc-empty", entries=["harness_trunc"], shards=_all(FM_EMPTY),
          bounds=_FILES + "EMPTY cut at EVERY length L = 0..63 (symbolic selector, 8 lengths per query): header cut, chunk-header cut, missing EOF chunk", **_C18F),
-    dict(name="file-trunc-tet", entries=["harness_trunc"], shards={"quick": _bound(FM_TET), "thorough": _all(FM_TET)},
-         bounds=_FILES + "TET cut at every length L = 0..351 (thorough); quick: the 8-length blocks around every chunk boundary", **_C18F),
-    dict(name="file-trunc-tetp", entries=["harness_trunc"], shards={"quick": _bound(FM_TETP)[-4:], "thorough": _all(FM_TETP)},
-         bounds=_FILES + "TETP cut at every length L = 0..439 (thorough); quick: the blocks around the last chunk boundaries (before PROP, before EOF)", **_C18F),
+    dict(name="file-trunc-tet", entries=["harness_trunc"], shards=_all(FM_TET), tiers=["thorough"],
+         bounds=_FILES + "TET cut at every length L = 0..351 (thorough tier only: not measured in CBMC under the time limit; all 352 lengths were enumerated natively)", **_C18F),
+    dict(name="file-trunc-tetp", entries=["harness_trunc"], shards=_all(FM_TETP), tiers=["thorough"],
+         bounds=_FILES + "TETP cut at every length L = 0..439 (thorough tier only, not measured in CBMC)", **_C18F),
     dict(name="file-fault-empty", entries=["harness_fault"], shards=_all(FM_EMPTY),
          bounds=_FILES + "EMPTY with the stream delivering nothing from EVERY offset P = 0..63 on (istream::read short, stream failed)", **_C18F),
-    dict(name="file-fault-tet", entries=["harness_fault"], shards={"quick": _bound(FM_TET), "thorough": _all(FM_TET)},
-         bounds=_FILES + "TET with the stream failing from every offset P = 0..351 (thorough); quick: blocks around chunk boundaries", **_C18F),
+    dict(name="file-fault-tet", entries=["harness_fault"], shards=_all(FM_TET), tiers=["thorough"],
+         bounds=_FILES + "TET with the stream failing from every offset P = 0..351 (thorough tier only, not measured in CBMC)", **_C18F),
     dict(name="file-fault-tetp", entries=["harness_fault"], shards=_all(FM_TETP), tiers=["thorough"],
          bounds=_FILES + "TETP with the stream failing from every offset P = 0..439", **_C18F),
     dict(name="file-subst-empty", entries=["harness_subst"], shards=_subst(FM_EMPTY, False),
          bounds=_FILES + "EMPTY: every byte of the must-reject field set (magic, header_version, reserved, topo_type made invalid, chunk type/version of a mandatory chunk, "
                 "padding_bytes, file_length) replaced by each of the boundary values orig^0x01, orig^0x80, 0x00, 0xff and the smallest constraint-violating value", **_C18F),
-    dict(name="file-subst-tet", entries=["harness_subst"], shards={"quick": _subst(FM_TET, True), "thorough": _subst(FM_TET, False)},
+    dict(name="file-subst-tet", entries=["harness_subst"], shards={"quick": [{0: FM_TET, 1: 46, 2: 0}], "thorough": _subst(FM_TET, False)},
          bounds=_FILES + "TET: every byte of the must-reject field set (as EMPTY plus padding bytes, span first/count, vertex/entity/valence/handle encodings, valence, "
-                "handle_offset and handle bytes made >= the number of referenced entities) x boundary values (thorough: 5 per byte; quick: 1 per byte)", **_C18F),
+                "handle_offset and handle bytes made >= the number of referenced entities) x 5 boundary values (thorough: all 133 blocks; quick: only block 46 = cases 368..375, "
+                "valence_encoding/handle_encoding/handle_offset bytes of the EDGES chunk -- the one block measured in CBMC)", **_C18F),
     dict(name="file-subst-tetp", entries=["harness_subst"], shards=_subst(FM_TETP, False), tiers=["thorough"],
          bounds=_FILES + "TETP: as TET plus the DIRP/PROP chunk headers, PROP span and property index", **_C18F),
-    dict(name="file-subst-compression", entries=["harness_subst_compression"], shards=[{0: FM_EMPTY, 1: 0}] + [{0: FM_TET, 1: b} for b in range(4)],
+    dict(name="file-subst-compression", entries=["harness_subst_compression"], shards=[{0: FM_EMPTY, 1: 0}] + [{0: FM_TET, 1: b} for b in range(4)], tiers=["thorough"],
          bounds=_FILES + "the chunk header's compression byte ('not specified yet, must always be 0') replaced by boundary values; kept apart from file-subst-* because the "
                 "property text names reserved bytes and encodings but not this field explicitly", **_C18F),
-    dict(name="file-struct", entries=["harness_struct"], shards=[{0: FM_TET, 1: 0}, {0: FM_TET, 1: 1}, {0: FM_TETP, 1: 0}],
+    dict(name="file-struct", entries=["harness_struct"], shards={"quick": [{0: FM_TET, 1: 0}], "thorough": [{0: FM_TET, 1: 0}, {0: FM_TET, 1: 1}, {0: FM_TETP, 1: 0}]},
          bounds=_FILES + "forbidden chunk sequences: TET: EOF dropped / duplicated / not last / first, EDGES|FACES|CELLS dropped, VERT|EDGES|FACES|CELLS duplicated, FACES before "
                 "EDGES, CELLS before FACES (13 cases); TETP: second DIRP, DIRP dropped, PROP before DIRP, EOF before PROP, EOF dropped (5 cases)", **_C18F),
   ] + globals().get("C18_UNIT_JOBS", []),
